@@ -28,7 +28,11 @@ type recurTmpl struct {
 	handlerReentry bool
 	// finding: id of another open finding whose input class contains the template
 	finding string
-	src     string
+	// hangs: the template never finishes on the current golua (no crash, no CPU
+	// budget consumed): by the timeout rule it is inconclusive, so the quick
+	// tier does not spend its time limit on it
+	hangs string
+	src   string
 }
 
 // metaRec builds "metamethod mm whose handler performs the same operation on
@@ -65,7 +69,7 @@ local n = 0
 local t = setmetatable({}, {__call = function(self, ...) n = n + 1 if n > 3000000 then return n end return self(...) end})
 return pcall(t, 1, 2)`},
 	// a __call metamethod that is itself a table with a __call metamethod ...
-	{name: "call-table-chain", src: `
+	{name: "call-table-chain", hangs: "__call chain through tables loops in Go without consuming CPU budget", src: `
 local t = {}
 setmetatable(t, {__call = t})
 local ok, err = pcall(t)
@@ -112,7 +116,7 @@ local function f(n)
   if n > 0 then f(n - 1) end
   error("x")
 end
-local ok, err = pcall(f, 100000)
+local ok, err = pcall(f, 10000)
 return ok, type(err)`},
 	{name: "gc", src: `
 local n = 0
@@ -209,14 +213,14 @@ local w
 w = coroutine.wrap(function() return w() end)
 local ok, err = pcall(w)
 return a, b, ok`},
-	{name: "coroutine-close-chain", src: `
+	{name: "coroutine-close-chain", hangs: "coroutine.close from a __close handler of a coroutine that is being closed deadlocks", src: `
 local function mk(n)
   return coroutine.create(function()
     local x <close> = setmetatable({}, {__close = function() if n > 0 then local c = mk(n - 1) coroutine.resume(c) coroutine.close(c) end end})
     coroutine.yield()
   end)
 end
-local c = mk(1000)
+local c = mk(3)
 coroutine.resume(c)
 return coroutine.close(c)`},
 	{name: "lua-recursion-nontail", src: `
